@@ -2761,3 +2761,40 @@ Proof.
   destruct (pinv_run P cfg HP sched _ (winv_init threads) (pinv_init P cfg threads Hth) a c Ha) as [_ Td].
   destruct (Td ICrashed Hin) as [_ X]. discriminate X.
 Qed.
+
+(* ================================================================== *)
+(* C08: cancellation is permanent and a publish keeps its context - so "already cancelled when PublishContext was called"
+   implies "cancelled" at each later per-handler check of that publish (entry_decisions, task_start_decision) *)
+Lemma upd_pub_cancelled s p f : cancelled (upd_pub s p f) = cancelled s.
+Proof. unfold upd_pub. destruct (assoc_get (pubs s) p); reflexivity. Qed.
+
+Lemma cancelled_step P cfg s a i rest s' ls :
+  step_instr P cfg s a i rest = Some (s', ls) ->
+  match i with
+  | IDo (ACancel c) => cancelled s' = c :: cancelled s
+  | _ => cancelled s' = cancelled s
+  end.
+Proof.
+  intros H. destruct i; cbn [step_instr] in H.
+  all: try (break_head H; try discriminate; inversion H; subst; clear H;
+            solve [cbn [cont set_code set_registry cancelled]; rewrite ?upd_pub_cancelled; reflexivity]).
+Qed.
+
+Theorem cancellation_is_permanent P cfg s a s' ls c :
+  mstep P cfg s a = Some (s', ls) -> is_cancelled s c = true -> is_cancelled s' c = true.
+Proof.
+  unfold mstep. destruct (assoc_get (code s) a) as [[|i rest]|]; try discriminate. intros H Hc.
+  pose proof (cancelled_step P cfg s a i rest s' ls H) as E.
+  destruct c as [|k]; [discriminate Hc|]. cbn [is_cancelled] in *.
+  destruct i; try (rewrite E; exact Hc). destruct a0; try (rewrite E; exact Hc).
+  rewrite E. apply memb_cons. exact Hc.
+Qed.
+
+Theorem cancellation_is_permanent_run P cfg c : forall sched s,
+  is_cancelled s c = true -> is_cancelled (fst (run P cfg s sched)) c = true.
+Proof.
+  induction sched as [|a r IH]; intros s Hc; cbn [run]; [exact Hc|].
+  destruct (mstep P cfg s a) as [[s' ls]|] eqn:E.
+  - specialize (IH s' (cancellation_is_permanent P cfg s a s' ls c E Hc)). destruct (run P cfg s' r). exact IH.
+  - apply IH. exact Hc.
+Qed.
